@@ -6,8 +6,15 @@
     (tree update t u (L ignore*))              tree_update(t, u, ignore = [...]) ; also Dict(t) + u
     (tree get t (T S:k*))                      tree_getitem(t, path)
     (tree merge t u (L ignore*))               the specification `merge` (used by the harness as oracle)
+    (tree updateh t u (L ignore*))             tree_update on the heap model (PygModel/TreeHeap.lean): both operands are
+                                               laid out in a heap, the call is run with its item assignments, the result
+                                               node is read back; `mutated` if a pre-existing node was written
+    (tree totable t S:pattern)                 tree_to_table(t, pattern): rows as tuples of the wildcard values in pattern order
+    (tree totree S:pattern (L row*))           table_to_tree(None, pattern, rows), rows = dicts name -> value
 -/
 import PygModel.Tree
+import PygModel.TreeHeap
+import PygModel.TreeTable
 
 namespace Pyg.TreeDriver
 open Pyg Pyg.Tree
@@ -34,6 +41,22 @@ def res (r : Res Val) : String :=
   | .ok v => "ok " ++ v.render
   | .error e => "err " ++ e.render
 
+/-- `tree_update` through the heap model; the frame (no old node written) is re-checked at run time -/
+def heapUpdate (t u : Val) (ig : List Val) : String :=
+  let (m1, rt) := TreeHeap.allocTree ⟨[], []⟩ t
+  let (m2, ru) := TreeHeap.allocTree m1 u
+  match rt, ru with
+  | .ptr a, .ptr b =>
+    match TreeHeap.treeUpdateH (m2.heap.length + 1) m2 a b ig with
+    | .error e => "err " ++ e.render
+    | .ok (m', r) =>
+      if m'.heap.take m2.heap.length != m2.heap || m'.log.any (· < m2.heap.length) then "mutated"
+      else match TreeHeap.readH m'.heap (m'.heap.length + 1) (.ptr r) with
+        | some v => "ok " ++ v.render
+        | none => "err Other"
+  | .ptr _, .val _ => "err ValueError"
+  | _, _ => "err Other"
+
 def handle1 (op : String) (args : List Sexp) : Option String := do
   match op, args with
   | "items", [t] => pure ("ok " ++ (Val.list ((items (← Val.ofSexp t)).map itemV)).render)
@@ -49,6 +72,24 @@ def handle1 (op : String) (args : List Sexp) : Option String := do
       match ← Val.ofSexp ig with
       | .list ig => pure (res (update (← Val.ofSexp t) (← Val.ofSexp u) ig))
       | _ => Option.none
+  | "updateh", t :: u :: ig :: _ =>
+      match ← Val.ofSexp ig with
+      | .list ig => pure (heapUpdate (← Val.ofSexp t) (← Val.ofSexp u) ig)
+      | _ => Option.none
+  | "totable", [t, p] =>
+      match ← Val.ofSexp p with
+      | .cell (.str ps) =>
+          let pat := TreeTable.parsePattern ps
+          let names := pat.filterMap fun seg => match seg with | .wild n => some n | _ => Option.none
+          let rows := TreeTable.toTable pat (← Val.ofSexp t)
+          pure ("ok " ++ (Val.list (rows.map fun row => .tuple (names.map fun n => (DA.lookup n row).getD (.cell .none)))).render)
+      | _ => Option.none
+  | "totree", [p, rows] =>
+      match ← Val.ofSexp p, ← Val.ofSexp rows with
+      | .cell (.str ps), .list rs => do
+          let rows ← rs.mapM fun r => match r with | .dict kvs => some kvs | _ => Option.none
+          pure (res ((TreeTable.toTree (TreeTable.parsePattern ps) rows).map .dict))
+      | _, _ => Option.none
   | "merge", [t, u, ig] =>
       match ← Val.ofSexp ig with
       | .list ig => pure ("ok " ++ (merge ig (← Val.ofSexp t) (← Val.ofSexp u)).render)
